@@ -1351,6 +1351,22 @@ def _ghostfn(eng, e, st, fr, k):
     return eng.ev(e.args[1], st, fr, lambda s, v: k(s, SInt(f(v.t))))
 
 
+_UFSTR = {}
+
+
+def _ufstr(eng, e, st, fr, k):
+    """ufstr('name', obj, s): an uninterpreted function (object identity, str) -> str.  Used in the ASSUMED contract of a
+    hook it states that the hook's result is a function of the receiver and the argument (the hook is pure)."""
+    name = e.args[0].value
+    f = _UFSTR.get(name)
+    if f is None:
+        f = _UFSTR[name] = z3.Function("ufstr_" + name, IntS, StrS, StrS)
+    def got(s1, o):
+        oid = PyVal.rval(o.t) if isinstance(o, SDyn) else o.t
+        return eng.ev(e.args[2], s1, fr, lambda s2, v: k(s2, SStr(f(oid, PyVal.sval(v.t) if isinstance(v, SDyn) else v.t))))
+    return eng.ev(e.args[1], st, fr, got)
+
+
 def _ghost_str(eng, e, st, fr, k):
     return k(st, SStr(st.heap.get(("g", e.args[0].value, "str"))))
 
@@ -1437,7 +1453,7 @@ def _modconst(eng, e, st, fr, k):
 
 SPECIAL_FORMS = {"dict_wf": _dict_wf, "dict_pos": _dict_pos, "was": _was, "ghostfn": _ghostfn, "ghost_str": _ghost_str, "ghost": _ghost, "ref_id": _ref_id, "same_class": _same_class, "existed": _existed, "content_unchanged": _content_unchanged, "modconst": _modconst, "nlines": _nlines, "joined": _joined, "truthy": _truthy, "isint": _isint, "isnone": _isnone,
                  "dict_key_at": _dict_key_at, "str_of": _str_of, "forall": _quant("forall"), "exists": _quant("exists"), "implies": _implies, "old": _old,
-                 "fresh": _fresh, "allocated": _allocated, "unchanged": _unchanged, "isstr": _isstr, "isref": _isref, "ALLOC0": _alloc0, "cut": _cut,
+                 "fresh": _fresh, "allocated": _allocated, "unchanged": _unchanged, "isstr": _isstr, "isref": _isref, "ufstr": _ufstr, "ALLOC0": _alloc0, "cut": _cut,
                  "sval": _sval, "ival": _ival, "cls_is": _cls_is, "same": _same_obj, "as_ref": _as_ref}
 SPECIAL_ALWAYS = set()
 SPEC_FUNCS = set()
